@@ -2,6 +2,8 @@ import Bluebell.Convert
 import Bluebell.Lemmas.AknWF
 import Bluebell.Lemmas.FlatDoc
 import Bluebell.Lemmas.NestedDoc
+import Bluebell.Lemmas.TokDoc
+import Bluebell.Props.C11
 /-!
 # C01 — conversion is total
 
@@ -157,10 +159,55 @@ example : AtBlks "a\n\x0e\nb\n\n\x0e\nc\n\x0f\n\x0f\nd\n".toList.toArray 0
   have hc := hs 'c' (by decide)
   have hd := hs 'd' (by decide)
   refine ⟨2, ⟨⟨'a', [], rfl, ha⟩, pl _ 0 'a' (by decide) (by decide) (ip _ ha), 0, ⟨by decide, by simp [NlRun]⟩, rfl⟩, 15, ?_, 17, ?_, rfl⟩
-  · refine ⟨by decide, by decide, by decide, by simp, 13, ?_, by decide, by decide, rfl, by decide⟩
+  · refine ⟨by decide, by decide, by decide, by simp, 13, ?_, by decide, 0, ⟨by decide, by simp [NlRun]⟩, rfl⟩
     refine ⟨7, ⟨⟨'b', [], rfl, hb⟩, pl _ 4 'b' (by decide) (by decide) (ip _ hb), 1, ⟨by decide, by decide, by simp [NlRun]⟩, rfl⟩, 13, ?_, rfl⟩
-    refine ⟨by decide, by decide, by decide, by simp, 11, ?_, by decide, by decide, rfl, by decide⟩
+    refine ⟨by decide, by decide, by decide, by simp, 11, ?_, by decide, 0, ⟨by decide, by simp [NlRun]⟩, rfl⟩
     exact ⟨11, ⟨⟨'c', [], rfl, hc⟩, pl _ 9 'c' (by decide) (by decide) (ip _ hc), 0, ⟨by decide, by simp [NlRun]⟩, rfl⟩, rfl⟩
   · exact ⟨⟨'d', [], rfl, hd⟩, pl _ 15 'd' (by decide) (by decide) (ip _ hd), 0, ⟨by decide, by simp [NlRun]⟩, rfl⟩
+
+/-! ## From the raw text: any indentation whatsoever
+
+Putting C11's normal-form theorem (for **every** text, `pre_parse` yields balanced, well-placed
+markers) together with the acceptance of well-nested plain blocks: take any text whose lines, once
+trimmed, are empty or *good* — plain characters only, first character a `plainStart` character — with
+**any** indentation pattern, tabs, blank lines, trailing blanks, any `indent_size ≥ 1`… The pre-parsed
+text is accepted in full by the five structured roots.  (The model's `preParse` is tied to the real
+`pre_parse` by C11's correspondence check; `GoodLine` is decidable per line.) -/
+theorem C01_plain_text_any_indentation (n : Nat) (text : List Char) (root : String)
+    (hroot : root ∈ ["doc", "statement", "debateReport", "act", "bill"])
+    (hne : pyStrip (detab n text) ≠ [])
+    (hlines : ∀ l ∈ (splitLines (pyStrip (detab n text))).map trimSpaces, l = [] ∨ GoodLine l) :
+    let inp := (preParse n text).toArray
+    ∃ t, Lim aknExec inp (.ref root) 0 (.ok t) ∧ t.stop = inp.size := by
+  intro inp
+  obtain ⟨toks, ⟨hpre, hcl⟩, hnf⟩ := preParse_nonblank n text hne
+  obtain ⟨bs, hb, hs⟩ := blocks_of_normal_form toks hnf.balanced hnf.no_empty_block hnf.first_nonblank
+  have hg : GoodKs bs := goodKs_of_struct bs hs (by rw [← hb, hcl]; exact hlines)
+  have := good_blocks_accepted bs hg root hroot
+  simp only at this
+  have he : inp = (unlines (toksKs bs)).toArray := by simp [inp, hpre, hb]
+  rw [he]; exact this
+
+/-- non-vacuity: ragged indentation, a tab, blank lines and trailing blanks -/
+example : let text := "first line\n      deeper, (much)\n\n  \tback a bit  \n  same\nend\n".toList
+    pyStrip (detab 2 text) ≠ [] ∧ ∀ l ∈ (splitLines (pyStrip (detab 2 text))).map trimSpaces, l = [] ∨ GoodLine l := by
+  intro text
+  have hs := C01_plain_starts
+  simp only [List.all_eq_true] at hs
+  refine ⟨by decide +kernel, ?_⟩
+  have hl : (splitLines (pyStrip (detab 2 text))).map trimSpaces =
+      ["first line".toList, "deeper, (much)".toList, [], "back a bit".toList, "same".toList, "end".toList] := by decide +kernel
+  rw [hl]
+  intro l hmem
+  simp only [List.mem_cons, List.mem_nil_iff, or_false] at hmem
+  have good : ∀ (c : Char) (r : List Char), c ∈ "abcdefghijklmnopqrstuvwxyz0123456789(\"'.,;:-é§".toList →
+      (∀ x ∈ c :: r, isPlain x = true) → GoodLine (c :: r) := fun c r hc hp => ⟨⟨c, r, rfl, hs c hc⟩, hp⟩
+  rcases hmem with rfl | rfl | rfl | rfl | rfl | rfl
+  · exact Or.inr (good _ _ (by decide) (by decide +kernel))
+  · exact Or.inr (good _ _ (by decide) (by decide +kernel))
+  · exact Or.inl rfl
+  · exact Or.inr (good _ _ (by decide) (by decide +kernel))
+  · exact Or.inr (good _ _ (by decide) (by decide +kernel))
+  · exact Or.inr (good _ _ (by decide) (by decide +kernel))
 
 end Bluebell
